@@ -40,13 +40,13 @@ var c17Timings = []struct {
 }
 
 type c17Config struct {
-	Cause    int          `json:"cause"`
-	Calls    []int        `json:"calls"`    // indices into c17Calls
-	When     int          `json:"when"`     // 0: right after the handshake, 1: 300 ms later (streams established, calls blocked), 2: during a transfer; for handshake causes: datagram ordinal
-	Timing   int          `json:"timing"`
-	Kind     string       `json:"kind"`
-	Faults   sim.FaultMap `json:"faults"` // applied from the moment of the cause
-	Seed     uint64       `json:"seed"`
+	Cause  int          `json:"cause"`
+	Calls  []int        `json:"calls"` // indices into c17Calls
+	When   int          `json:"when"`  // 0: right after the handshake, 1: 300 ms later (streams established, calls blocked), 2: during a transfer; for handshake causes: datagram ordinal
+	Timing int          `json:"timing"`
+	Kind   string       `json:"kind"`
+	Faults sim.FaultMap `json:"faults"` // applied from the moment of the cause
+	Seed   uint64       `json:"seed"`
 }
 
 func (c c17Config) String() string {
@@ -591,9 +591,8 @@ func c17Subsets(n, maxSize int) [][]int {
 	return out
 }
 
-func TestVerifC17(t *testing.T) {
-	sim.InitCerts(t)
-	mk := func(e explore.Env) ([]c17Config, string) {
+func c17Configs(e explore.Env) ([]c17Config, string) {
+	{
 		seed := uint64(e.Seed) + 31
 		maxSet := 3
 		if e.Thorough() {
@@ -650,6 +649,11 @@ func TestVerifC17(t *testing.T) {
 		}
 		return cfgs, fmt.Sprintf("close causes {local close, remote close, idle timeout, Transport.Close, stateless reset} x every set of <= %d concurrently blocked client calls out of %v x 3 positions (right after the handshake, 300 ms later, during a server-to-client transfer) + timing configurations + spec-driven client + 1 fault on the closing exchange; handshake timeout (silent peer) and dial cancellation at each of the first 8 datagrams; keep-alive answered for 5 idle periods then path death; path death while the application keeps writing every quarter idle period (3 timing configurations x plain/spec-driven x 2 call sets)", maxSet, c17Calls)
 	}
+}
+
+func TestVerifC17(t *testing.T) {
+	sim.InitCerts(t)
+	mk := c17Configs
 	part := explore.Part{Name: "close-fanout"}
 	part.Run = func(e explore.Env) *explore.Report {
 		cfgs, rule := mk(e)
